@@ -44,12 +44,12 @@ TEMPLATES = (
     ("size", "str", "size"),                      # 3 both outcomes of a one-line conditional: same lines, other branch outcomes
     ("int9", "check", "classify"),                # 4 check raises: the rest is never executed
     ("new", "step", "step"),                      # 5 "low" and "high"
-    ("int3", "int3", "classify"),                 # 6 a redundant literal
-    ("new", "bump", "new", "absorb"),             # 7 a call reading two variables
-    ("intm2", "classify"),                        # 8 negative arm
-    ("int3", "classify", "intm2", "classify"),    # 9 subsumes 0 and 8
-    ("int3", "check", "classify"),                # 10 check passes, classify reads its result
-    ("classify",),                                # 11 zero arm (literal argument)
+    ("str", "size", "int3"),                      # 6 the "long" outcome only; a trailing unused literal
+    ("size",),                                    # 7 the "short" outcome only (literal argument): same line as 6, other outcome
+    ("new", "bump", "new", "absorb"),             # 8 a call reading two variables
+    ("intm2", "classify"),                        # 9 negative arm
+    ("int3", "classify", "intm2", "classify"),    # 10 subsumes 0 and 9
+    ("int3", "check", "classify"),                # 11 check passes, classify reads its result
 )
 _T = tuple(tuple(L.K[name] for name in t) for t in TEMPLATES)
 
